@@ -865,10 +865,15 @@ class DenseCOO(object):
     def __init__(self, data, rows, cols, shape):
         _used('sparse.coo_matrix (dense accumulation; duplicate coordinates add)')
         self.shape = tuple(int(s) for s in shape)
+        # the COO triplets stay available like on the scipy object
+        self.data = np.asarray(list(data), dtype=object)
+        self.row = real_np.asarray([int(r) for r in rows], dtype=real_np.intp)
+        self.col = real_np.asarray([int(c) for c in cols], dtype=real_np.intp)
+        self.dtype = real_np.dtype(object)
+        self.nnz = len(self.row)
         self.dense = np.empty(self.shape, dtype=object)
         self.dense.fill(0)
-        for d, r, c in zip(data, rows, cols):
-            r, c = int(r), int(c)
+        for d, r, c in zip(self.data, self.row, self.col):
             if r < 0 or c < 0 or r >= self.shape[0] or c >= self.shape[1]:
                 raise ValueError("row/column index exceeds matrix dimensions")
             self.dense[r, c] = self.dense[r, c] + d
